@@ -23,7 +23,8 @@ type solverSpec struct {
 
 var solvers = []solverSpec{
 	{"z3-new", func(f string, t int) []string { return []string{"z3-new", "-smt2", fmt.Sprintf("-t:%d", t), f} }},
-	{"z3", func(f string, t int) []string { return []string{"z3", "-smt2", fmt.Sprintf("-t:%d", t), f} }},
+	// z3 4.8.12 is not used: on one query (a seeded change, handleSequenceReset) it answered "unsat" where z3 5.1.0 and
+	// cvc5 do not and the real code has a counterexample; its answers are not trusted here (DESIGN.md section 7)
 	{"cvc5", func(f string, t int) []string {
 		return []string{"cvc5", "--incremental", fmt.Sprintf("--tlimit-per=%d", t), "--lang=smt2", f}
 	}},
@@ -316,6 +317,9 @@ func (eng *Engine) discharge(vc *VC, workDir string, timeoutMs int, thorough boo
 				ck := keyOf(i)
 				if os.Getenv("GVC_NOCACHE") == "" {
 					if b, err := os.ReadFile(ck); err == nil && strings.HasPrefix(string(b), "unsat") {
+						if os.Getenv("GVC_DEBUGCACHE") != "" {
+							fmt.Fprintf(os.Stderr, "cache hit %s for %s: %s", ck, vc.obls[i].Name, string(b))
+						}
 						ch <- ans{i, "unsat", strings.TrimSpace(strings.TrimPrefix(string(b), "unsat")) + "/cached", 0}
 						return
 					}
